@@ -1,7 +1,13 @@
 /-
-`TimedMessage` (crates/rs1090/src/decode/mod.rs:519-534) as jet1090 / decode1090 print it:
-`{"timestamp": …, "frame": "<hex>", <the message's own members, flattened>, "metadata": […]}`;
-`decode_time` is skipped unless the process-wide configuration asks for it (not modelled: off).
+`TimedMessage` (crates/rs1090/src/decode/mod.rs:480-534) as jet1090 / decode1090 print it:
+`{"timestamp": …, "frame": "<hex>", <the message's own members, flattened>, "metadata": […], ("decode_time": …)}`.
+
+`decode_time` carries `#[serde(skip_serializing_if = "skip_serialize_decode_time")]`, and that function reads the
+process-wide, write-once configuration `static CONFIG: OnceCell<SerializeConfig>`:
+`!CONFIG.get().map(|cfg| cfg.decode_time).unwrap_or(false) | field.is_none()`.  The configuration has three states —
+never set (decode1090, the Python binding, jet1090 without `--stats`), `serialize_config(false)`,
+`serialize_config(true)` (jet1090 `--stats`) — modelled by `Config`; `timedJsonCfg` is the record under each of them.
+`SensorMetadata` (the elements of `metadata`) is a plain struct whose four optional members are skipped when `None`.
 -/
 import Rs1090.Model.Decode.Message
 namespace Rs1090.Model.Timed
@@ -16,6 +22,61 @@ def frameHex : List Nat → List Char
 def timedJson (ts : Json) (frame : List Nat) (msg : Option (List (Key × Json))) (metadata : List Json) : Json :=
   .obj ([(key! "timestamp", ts), (key! "frame", .chars (frameHex frame))] ++ msg.getD [] ++
         [(key! "metadata", .arr metadata)])
+
+/-- the state of `static CONFIG: OnceCell<SerializeConfig>`: never set, or set once (a second `serialize_config`
+    call panics: "configuration can only happen once") -/
+inductive Config where
+  | unset
+  | set (decodeTime : Bool)
+  deriving DecidableEq, Repr, Inhabited
+
+/-- `CONFIG.get().map(|cfg| cfg.decode_time).unwrap_or(false)` -/
+def Config.decodeTime : Config → Bool
+  | .unset => false
+  | .set b => b
+
+/-- `skip_serialize_decode_time(field)`: `!decode_time | field.is_none()` -/
+def skipDecodeTime (cfg : Config) (dt : Option Json) : Bool := !cfg.decodeTime || dt.isNone
+
+/-- the `decode_time` member: present exactly when the configuration asks for it and the field is `Some` -/
+def decodeTimeMember (cfg : Config) (dt : Option Json) : List (Key × Json) :=
+  match dt with
+  | some t => if skipDecodeTime cfg dt then [] else [(key! "decode_time", t)]
+  | none => []
+
+/-- the timed record under configuration `cfg`; `dt` is the `decode_time: Option<f64>` field -/
+def timedJsonCfg (cfg : Config) (ts : Json) (frame : List Nat) (msg : Option (List (Key × Json)))
+    (metadata : List Json) (dt : Option Json) : Json :=
+  .obj ([(key! "timestamp", ts), (key! "frame", .chars (frameHex frame))] ++ msg.getD [] ++
+        [(key! "metadata", .arr metadata)] ++ decodeTimeMember cfg dt)
+
+/-- `SensorMetadata`: `system_timestamp`, `serial` always; `gnss_timestamp`, `nanoseconds`, `rssi`, `name` only when
+    `Some` (`skip_serializing_if = "Option::is_none"`), in declaration order -/
+structure SensorMeta where
+  systemTimestamp : Json
+  gnssTimestamp : Option Json
+  nanoseconds : Option Nat
+  rssi : Option Json
+  serial : Nat
+  name : Option (List Char)
+
+def SensorMeta.toJson (m : SensorMeta) : Json :=
+  .obj (Fields.toObj [
+    fld (key! "system_timestamp") m.systemTimestamp,
+    skipNone (key! "gnss_timestamp") m.gnssTimestamp,
+    skipNone (key! "nanoseconds") (m.nanoseconds.map jnat),
+    skipNone (key! "rssi") m.rssi,
+    fld (key! "serial") (jnat m.serial),
+    skipNone (key! "name") (m.name.map Json.chars) ])
+
+/-- decode + wrap under a configuration, with reception metadata and a decode time -/
+def recordCfg (cfg : Config) (ts : Json) (frame : List Nat) (metadata : List SensorMeta) (dt : Option Json) :
+    Outcome Message.Decoded :=
+  match Message.tryFrom frame with
+  | .ok (.json (.obj kvs)) => .ok (.json (timedJsonCfg cfg ts frame (some kvs) (metadata.map SensorMeta.toJson) dt))
+  | .ok d => .ok d
+  | .err e => .err e
+  | .panic x => .panic x
 
 /-- decode + wrap, as the live pipeline does for one reception (no metadata, fixed time stamp) -/
 def record (ts : Json) (frame : List Nat) : Outcome Message.Decoded :=
